@@ -1,5 +1,5 @@
 /-
-C20 — two padded LIS files of the input class of the defect repaired in /repo (7ad9eab), evaluated by the kernel on the
+C20 — three padded LIS files of the input classes of the defects repaired in /repo (7ad9eab, 80d49da), evaluated by the kernel on the
 concrete deep test `lisTest` (built by `./check C20` through EXTRA_LEAN_TARGETS; ≈ 1 min the first time).
 `TD.C05.encode` writes no PAD bytes, so `lis_identified` does not speak about these files.
 -/
@@ -35,5 +35,19 @@ example : (TD.C05.scanAll true exPadLate 100).map (·.2) = [100, 100, 100, 100, 
     (TD.C05.scanAll true exPadLate 0).map (·.2) = [0, 0, 0, 0, 103, 103] ∧
     lisTryOption exPadLate (0, false) = none ∧ lisTryOption exPadLate (2, true) = none ∧
     lisTryOption exPadLate (4, false) = some .lis ∧ lisTest exPadLate = .lis := by decide +kernel
+
+/-- the over-count reproducer (finding C20-lis-padded-wrong-option-overcounts, repaired by 80d49da):
+PR(62) file header | PR(7) + 1 PAD | PR(1537) + 1 PAD | PR(7) + 1 PAD.  Read with pad 0 the mis-aligned third header is a plausible
+6-byte record and the scan counts FIVE "records"; the file's own option (pad 2) counts the true four. -/
+def exPadOver : List Nat :=
+  [0, 62, 0, 0] ++ exHdrRec ++ [0, 7, 0, 0, 232, 0, 32, 0] ++ ([6, 1, 0, 0, 232, 0] ++ List.replicate 1531 32 ++ [0]) ++ [0, 7, 0, 0, 232, 0, 1, 0]
+
+set_option maxRecDepth 1000000 in
+/-- the wrong options count more and are tried first, give no index, and the file's own option — not among the best —
+is still tried and gives the index -/
+example : (TD.C05.scanAll true exPadOver 100).map (·.2) = [5, 5, 4, 4, 4, 0] ∧
+    lisTried exPadOver 100 = [(0, false), (0, true), (2, false), (2, true), (4, false)] ∧
+    lisTryOption exPadOver (0, false) = none ∧ lisTryOption exPadOver (0, true) = none ∧
+    lisTryOption exPadOver (2, false) = some .lis ∧ lisTest exPadOver = .lis := by decide +kernel
 
 end TD.C20
